@@ -195,6 +195,15 @@ pub(crate) struct JsFunctionScopeWriter<'a, W: fmt::Write> {
     top_scope: &'a mut JsTopScopeWriter<W>,
 }
 
+// JavaScript reserved words (including strict mode and future reserved words)
+const JS_RESERVED_WORDS: [&'static str; 49] = [
+    "arguments", "await", "break", "case", "catch", "class", "const", "continue", "debugger",
+    "default", "delete", "do", "else", "enum", "eval", "export", "extends", "false", "finally",
+    "for", "function", "if", "implements", "import", "in", "instanceof", "interface", "let", "new",
+    "null", "package", "private", "protected", "public", "return", "static", "super", "switch",
+    "this", "throw", "true", "try", "typeof", "undefined", "var", "void", "while", "with", "yield",
+];
+
 fn get_var_name(mut var_id: usize) -> String {
     let mut var_name = String::new();
     var_name.push(VAR_NAME_START_CHARS[var_id % VAR_NAME_START_CHARS.len()]);
@@ -202,6 +211,10 @@ fn get_var_name(mut var_id: usize) -> String {
     while var_id > 0 {
         var_name.push(VAR_NAME_CHARS[var_id % VAR_NAME_CHARS.len()]);
         var_id /= VAR_NAME_CHARS.len();
+    }
+    if JS_RESERVED_WORDS.contains(&var_name.as_str()) {
+        // a generated name never ends with `_` , so this cannot collide with another one
+        var_name.push('_');
     }
     var_name
 }
